@@ -366,7 +366,7 @@ def main():
             first_disagreement.setdefault(unit, {"error": err, "seed": useed})
             continue
         dis = 0
-        with open(ops) as fo, open(mod) as fm:
+        with open(ops, errors="replace") as fo, open(mod, errors="replace") as fm:
             for lo, lm in zip(fo, fm):
                 rec = json.loads(lo)
                 stats["evaluations"] += 1
@@ -519,4 +519,21 @@ def main():
 
 
 if __name__ == "__main__":
-    sys.exit(main())
+    try:
+        rc = main()
+    except SystemExit:
+        raise
+    except Exception:
+        # the checker itself failed (an input produced by the code under test it could not digest):
+        # the property is not shown to hold on this tree — say so in the interface's terms
+        import traceback
+        tb = traceback.format_exc()
+        pid = next((a for a in sys.argv[1:] if re.fullmatch(r"C\d\d", a)), "C00")
+        try:
+            rp = write_replay(pid, "infrastructure", {"error": "checks/check.py failed", "traceback": tb[-3000:]})
+        except Exception:
+            rp = "replays/none"
+        sys.stderr.write(tb)
+        print(f"VIOLATION property={pid} replay={rp} no-failing-input-found")
+        rc = 1
+    sys.exit(rc)
